@@ -370,15 +370,6 @@ func checkPacket(q parsedCfg, p packet, f fate) string {
 			}
 			return ""
 		}
-		if dnsPort && (p.proto == "tcp" || p.proto == "udp") {
-			return "" // DNS capture: stated by the Lean spec / packets stream only
-		}
-		if p.proto != "tcp" {
-			if red != "" {
-				return "outbound_non_tcp"
-			}
-			return ""
-		}
 		og := has(q.ogIncl, p.gid)
 		if q.ogAll {
 			og = !has(q.ogExcl, p.gid)
@@ -387,16 +378,59 @@ func checkPacket(q parsedCfg, p packet, f fate) string {
 		if p.v6 {
 			src6 = netip.MustParseAddr("::6")
 		}
-		want := !has(q.exclIfs, p.outIf) && !has(q.outPortsExcl, strconv.FormatUint(p.dport, 10)) &&
-			!(p.outIf == "lo" && p.src == src6) && !(p.outIf == "lo" && identity && !q.loopbackIncluded) && og &&
-			!loopDst && !inAny(q.excl, p.dst) &&
+		tcpudp := p.proto == "tcp" || p.proto == "udp"
+		reaches := !has(q.exclIfs, p.outIf) && !(tcpudp && has(q.outPortsExcl, strconv.FormatUint(p.dport, 10))) &&
+			!(p.outIf == "lo" && p.src == src6) &&
+			!(p.outIf == "lo" && identity && !q.loopbackIncluded && (!q.dns || (p.proto == "tcp" && p.dport != 53))) && og
+		// DNS capture: port 53 over TCP/UDP to a captured resolver goes to the agent
+		if dnsPort && tcpudp {
+			servers := q.raw.DNSV4
+			if p.v6 {
+				servers = q.raw.DNSV6
+			}
+			if reaches && (q.raw.CaptureAllDNS || has(servers, p.dst.String())) {
+				if red != "15053" {
+					return "dns_exact"
+				}
+				return ""
+			}
+		}
+		if p.proto != "tcp" {
+			if red != "" {
+				return "outbound_non_tcp"
+			}
+			return ""
+		}
+		want := reaches && !loopDst && !inAny(q.excl, p.dst) &&
 			(has(q.outPortsIncl, strconv.FormatUint(p.dport, 10)) || q.inclAll || inAny(q.incl, p.dst))
 		if want != (red == q.proxyPort) || (!want && red != "") {
 			return "outbound_exact"
 		}
 	case "PREROUTING":
-		if has(q.kubeVirt, p.inIf) {
-			return "" // stated by the Lean spec / packets stream only
+		// traffic on lo (the proxy delivering to the application, the application talking to itself) comes
+		// back in at PREROUTING: it must never be redirected there (never loop across hooks)
+		if p.inIf == "lo" && red != "" {
+			return "lo_reentry_redirected"
+		}
+		if p.inIf == "lo" && q.raw.Mode != "TPROXY" {
+			if f.tproxy >= 0 || (f.dropped && !(q.raw.DropInvalid && p.ctstate == "INVALID")) {
+				return "lo_reentry_captured"
+			}
+			return ""
+		}
+		if has(q.kubeVirt, p.inIf) && p.inIf != "lo" {
+			// KUBE_VIRT_INTERFACES (outside the property's grammar): treated as outbound, by included ranges only
+			if p.ctstate != "NEW" {
+				if red != "" {
+					return "nat-non-new"
+				}
+				return ""
+			}
+			want := p.proto == "tcp" && (q.inclAll || inAny(q.incl, p.dst))
+			if want != (red == q.proxyPort) || (!want && red != "") {
+				return "kube_virt_exact"
+			}
+			return ""
 		}
 		if q.raw.Mode == "TPROXY" {
 			return checkTproxyInbound(q, p, f, loopDst)
